@@ -358,7 +358,26 @@ def r09h(ctx):
               key_detail="one stored signal per receive", loc=ctx.loc("pyrex.antenna", fn))
 
 
+def r09i(ctx):
+    repo = ctx.repo
+    ctx.rule("R09i", "AntennaSystem._calculate_lead_in_times extends the requested grid backwards by at least lead_in_time, on the same grid: "
+             "n_pts = int((t_max - (t0 - lead_in_time)) / dt) + 2 - len(times)", expected=1, kind="N")
+    fn = repo.lookup(S, "_calculate_lead_in_times")[2]
+    st = [n for n in ast.walk(fn) if isinstance(n, ast.Assign) and u(n.targets[0]) == "n_pts"]
+    env = {}
+    for x in strip_doc(fn):         # the values in force where n_pts is computed (t_min is re-used afterwards)
+        if st and x is st[0]:
+            break
+        if isinstance(x, ast.Assign) and len(x.targets) == 1 and isinstance(x.targets[0], ast.Name):
+            env[x.targets[0].id] = x.value
+    want = NF(env).nf(parse_expr("int((times[-1]-(t0-self.lead_in_time))/dt)+2 - len(times)"))
+    got = NF(env).nf(st[0].value) if st else None
+    ctx.check(got is not None and got.equals(want), "R09i", f"{S}._calculate_lead_in_times", "number of lead-in points", u(st[0].value) if st else "no n_pts", key_detail="lead-in count",
+              loc=ctx.loc("pyrex.detector", st[0] if st else fn))
+
+
 def run(ctx):
+    ctx.guard(r09i)
     ctx.guard(r09h)
     ctx.guard(r09a)
     ctx.guard(r09b)
@@ -371,6 +390,7 @@ def run(ctx):
 
 SELFTEST = {
     "faults": [
+        {"name": "lead-in count from lead_in_time/dt only", "file": "pyrex/detector.py", "old": "        n_pts = int((t_max-t_min)/dt)+2 - len(times)", "new": "        n_pts = int(self.lead_in_time/dt)", "rule": "R09i"},
         {"name": "receive drops signals without amplitude", "file": "pyrex/antenna.py", "old": "        self.signals.append(total_signal)\n",
          "new": "        if not np.any(total_signal.values):\n            return\n        self.signals.append(total_signal)\n", "rule": "R09h"},
         {"name": "<= in a catch-up loop", "file": "pyrex/antenna.py", "old": "while len(self._all_waves)<len(self.signals):",
